@@ -3,8 +3,11 @@ From Coq Require Import List Arith Lia Bool.
 Import ListNotations.
 From SV Require Import c15.Conc c15.Model_C15 c15.Proofs_C15_Base.
 
+(* actions whose first safepoint closure is heap.lock_arc(): allocation, global update and (since 56291059) spawn *)
+Definition heap_act (a : act) : bool :=
+  match a with AAlloc _ | AAllocJit _ | AUpdate | ASpawn _ => true | _ => false end.
 Definition holds_heap (x : thd) : bool :=
-  match pc x with Held | Stw _ | Rel => true | SpParked | SpExitChecked => lock_act (head x) | _ => false end.
+  match pc x with Held | Stw _ | Rel | SpReg => true | SpParked | SpExitChecked => heap_act (head x) | _ => false end.
 Definition holds_tmx (x : thd) : bool :=
   match pc x with Stw (SSetFlag _) | Stw (SWait _ _) | Stw (SAccess _ _) | Stw (SResume _) => true | _ => false end.
 Definition flag_ok (s : spc) (t h : tid) (r : bool) : Prop :=
@@ -42,9 +45,9 @@ Ltac eqb_facts :=
 
 Ltac step_cases_fixed H :=
   unfold wstep in H; cbv zeta in H;
-  simpl keep_guard in H; simpl jit_box_safepoint in H; simpl negb in H; rewrite ?andb_false_r in H;
+  simpl keep_guard in H; simpl jit_box_safepoint in H; simpl spawn_locked in H; simpl negb in H; rewrite ?andb_false_r in H;
   destr_match H;
-  try (unfold sp_closure in H; cbv zeta in H; destr_match H);
+  try (unfold sp_closure in H; cbv zeta in H; simpl spawn_locked in H; destr_match H);
   try (unfold stw_step in H; cbv zeta in H; destr_match H);
   try discriminate H;
   inversion H; subst; clear H.
